@@ -22,6 +22,31 @@ class Obligation:
         self.name = name; self.holds = holds; self.info = info
 
 
+def cross_check(ctx, negated, expected):
+    """re-decide one obligation query with a second solver (cvc5 on the SMT-LIB2 export); -> 'agree' | 'disagree' | 'skipped'"""
+    import subprocess, tempfile, os
+    try:
+        s2 = z3.Solver()
+        for a in ctx.solver.assertions():
+            s2.add(a)
+        if negated is not None:
+            s2.add(negated)
+        text = '(set-logic ALL)\n' + s2.to_smt2()
+        with tempfile.NamedTemporaryFile('w', suffix='.smt2', delete=False) as f:
+            f.write(text)
+            path = f.name
+        try:
+            r = subprocess.run(['cvc5', '--lang', 'smt2', '--tlimit=20000', path], capture_output=True, text=True, timeout=30)
+        finally:
+            os.unlink(path)
+        out = r.stdout.strip().split('\n')[-1] if r.stdout.strip() else ''
+        if '(error' in r.stdout or out not in ('sat', 'unsat'):
+            return 'skipped'
+        return 'agree' if out == expected else 'disagree'
+    except Exception:
+        return 'skipped'
+
+
 def explore(body, base=(), stats=None, max_paths=100000, deadline=None, timeout_ms=20000, panic_is_violation=True):
     """body(ctx) -> list[Obligation].  Yields PathResult for every finished path:
        kind in {'ok', 'violation', 'panic', 'unsupported', 'steplimit', 'unknown'}"""
@@ -73,6 +98,10 @@ def explore(body, base=(), stats=None, max_paths=100000, deadline=None, timeout_
                     yield PathResult('unknown', ob.name, None, ob, ctx); bad = True
                 continue
             r = ctx.check(z3.Not(h))
+            if r in (z3.sat, z3.unsat) and getattr(stats, 'xchecked', 0) < 2:
+                stats.xchecked = getattr(stats, 'xchecked', 0) + 1
+                v = cross_check(ctx, z3.Not(h), 'sat' if r == z3.sat else 'unsat')
+                stats.xresults = getattr(stats, 'xresults', []) + [v]
             if r == z3.sat:
                 yield PathResult('violation', ob.name, ctx.solver.model(), ob, ctx); bad = True
             elif r == z3.unknown:
